@@ -385,56 +385,56 @@ package exif2
 //@   ensures [C06] anchor(ir) == old(anchor(ir))
 //@   ensures [C06 C10 ONLY] old(ir.exifLength != 0 && ir.po <= ir.exifLength) ==> ir.po <= ir.exifLength && trk(ir) == old(trk(ir))
 //@   ensures [C02] pos(ir.reader) >= old(pos(ir.reader))
-//@   ensures [C03] ir.customTagParser == nil && (t.Ifd == ifds.IFD0 && t.ID == ifds.Orientation) ==> ir.Exif.Orientation == meta.Orientation(u16val(t))
-//@   ensures [C03] ir.customTagParser == nil && (t.Ifd == ifds.IFD0 && t.ID == ifds.StripOffsets) ==> ir.Exif.StripOffsets == u32val(t)
-//@   ensures [C03] ir.customTagParser == nil && (t.Ifd == ifds.IFD0 && t.ID == ifds.StripByteCounts) ==> ir.Exif.StripByteCounts == u32val(t)
-//@   ensures [C03] ir.customTagParser == nil && (t.Ifd == ifds.ExifIFD && t.ID == exififd.ExposureProgram) ==> ir.Exif.ExposureProgram == meta.ExposureProgram(u16val(t))
-//@   ensures [C03] ir.customTagParser == nil && (t.Ifd == ifds.ExifIFD && t.ID == exififd.ExposureMode) ==> ir.Exif.ExposureMode == meta.ExposureMode(u16val(t))
-//@   ensures [C03] ir.customTagParser == nil && (t.Ifd == ifds.ExifIFD && t.ID == exififd.MeteringMode) ==> ir.Exif.MeteringMode == meta.MeteringMode(u16val(t))
-//@   ensures [C03] ir.customTagParser == nil && (t.Ifd == ifds.ExifIFD && t.ID == ifds.Flash) ==> ir.Exif.Flash == meta.Flash(u16val(t))
-//@   ensures [C03] ir.customTagParser == nil && (t.Ifd == ifds.ExifIFD && t.ID == exififd.ISOSpeedRatings) ==> ir.Exif.ISOSpeed == u32val(t)
-//@   ensures [C03] ir.customTagParser == nil && (t.Ifd == ifds.IFD0 && t.ID == ifds.ImageWidth) ==> ir.Exif.ImageWidth == uint16(u32val(t))
-//@   ensures [C03] ir.customTagParser == nil && (t.Ifd == ifds.IFD0 && t.ID == ifds.ImageLength) ==> ir.Exif.ImageHeight == uint16(u32val(t))
-//@   ensures [C03] ir.customTagParser == nil && (t.Ifd == ifds.ExifIFD && t.ID == exififd.PixelXDimension) ==> ir.Exif.ImageWidth == ite(old(ir.Exif.ImageWidth) == 0, uint16(u32val(t)), old(ir.Exif.ImageWidth))
-//@   ensures [C03] ir.customTagParser == nil && (t.Ifd == ifds.ExifIFD && t.ID == exififd.PixelYDimension) ==> ir.Exif.ImageHeight == ite(old(ir.Exif.ImageHeight) == 0, uint16(u32val(t)), old(ir.Exif.ImageHeight))
-//@   ensures [C03] ir.customTagParser == nil && !((t.Ifd == ifds.IFD0 && t.ID == ifds.Orientation)) ==> same(ir.Exif.Orientation, old(ir.Exif.Orientation))
-//@   ensures [C03] ir.customTagParser == nil && !((t.Ifd == ifds.IFD0 && t.ID == ifds.StripOffsets)) ==> same(ir.Exif.StripOffsets, old(ir.Exif.StripOffsets))
-//@   ensures [C03] ir.customTagParser == nil && !((t.Ifd == ifds.IFD0 && t.ID == ifds.StripByteCounts)) ==> same(ir.Exif.StripByteCounts, old(ir.Exif.StripByteCounts))
-//@   ensures [C03] ir.customTagParser == nil && !((t.Ifd == ifds.ExifIFD && t.ID == exififd.ExposureProgram)) ==> same(ir.Exif.ExposureProgram, old(ir.Exif.ExposureProgram))
-//@   ensures [C03] ir.customTagParser == nil && !((t.Ifd == ifds.ExifIFD && t.ID == exififd.ExposureMode)) ==> same(ir.Exif.ExposureMode, old(ir.Exif.ExposureMode))
-//@   ensures [C03] ir.customTagParser == nil && !((t.Ifd == ifds.ExifIFD && t.ID == exififd.MeteringMode)) ==> same(ir.Exif.MeteringMode, old(ir.Exif.MeteringMode))
-//@   ensures [C03] ir.customTagParser == nil && !((t.Ifd == ifds.ExifIFD && t.ID == ifds.Flash)) ==> same(ir.Exif.Flash, old(ir.Exif.Flash))
-//@   ensures [C03] ir.customTagParser == nil && !((t.Ifd == ifds.ExifIFD && t.ID == exififd.ISOSpeedRatings)) ==> same(ir.Exif.ISOSpeed, old(ir.Exif.ISOSpeed))
-//@   ensures [C03] ir.customTagParser == nil && !((t.Ifd == ifds.IFD0 && t.ID == ifds.ImageWidth) || (t.Ifd == ifds.ExifIFD && t.ID == exififd.PixelXDimension)) ==> same(ir.Exif.ImageWidth, old(ir.Exif.ImageWidth))
-//@   ensures [C03] ir.customTagParser == nil && !((t.Ifd == ifds.IFD0 && t.ID == ifds.ImageLength) || (t.Ifd == ifds.ExifIFD && t.ID == exififd.PixelYDimension)) ==> same(ir.Exif.ImageHeight, old(ir.Exif.ImageHeight))
-//@   ensures [C03] ir.customTagParser == nil && !((t.Ifd == ifds.ExifIFD && t.ID == exififd.FNumber) || (t.Ifd == ifds.ExifIFD && t.ID == exififd.ApertureValue)) ==> same(ir.Exif.FNumber, old(ir.Exif.FNumber))
-//@   ensures [C03] ir.customTagParser == nil && !((t.Ifd == ifds.ExifIFD && t.ID == exififd.ExposureTime)) ==> same(ir.Exif.ExposureTime, old(ir.Exif.ExposureTime))
-//@   ensures [C03] ir.customTagParser == nil && !((t.Ifd == ifds.ExifIFD && t.ID == exififd.ExposureBiasValue)) ==> same(ir.Exif.ExposureBias, old(ir.Exif.ExposureBias))
-//@   ensures [C03] ir.customTagParser == nil && !((t.Ifd == ifds.ExifIFD && t.ID == ifds.FocalLength)) ==> same(ir.Exif.FocalLength, old(ir.Exif.FocalLength))
-//@   ensures [C03] ir.customTagParser == nil && !((t.Ifd == ifds.ExifIFD && t.ID == exififd.FocalLengthIn35mmFilm)) ==> same(ir.Exif.FocalLengthIn35mmFormat, old(ir.Exif.FocalLengthIn35mmFormat))
-//@   ensures [C03] ir.customTagParser == nil && !((t.Ifd == ifds.IFD0 && t.ID == ifds.Make)) ==> same(ir.Exif.CameraMake, old(ir.Exif.CameraMake))
-//@   ensures [C03] ir.customTagParser == nil && !((t.Ifd == ifds.IFD0 && t.ID == ifds.Model)) ==> same(ir.Exif.CameraModel, old(ir.Exif.CameraModel))
-//@   ensures [C03] ir.customTagParser == nil && !((t.Ifd == ifds.IFD0 && t.ID == ifds.DNGVersion)) ==> same(ir.Exif.ImageType, old(ir.Exif.ImageType))
-//@   ensures [C03] ir.customTagParser == nil && !((t.Ifd == ifds.GPSIFD && t.ID == gpsifd.GPSAltitudeRef)) ==> same(ir.Exif.GPS.altitudeRef, old(ir.Exif.GPS.altitudeRef))
-//@   ensures [C03] ir.customTagParser == nil && !((t.Ifd == ifds.GPSIFD && t.ID == gpsifd.GPSLatitudeRef)) ==> same(ir.Exif.GPS.latitudeRef, old(ir.Exif.GPS.latitudeRef))
-//@   ensures [C03] ir.customTagParser == nil && !((t.Ifd == ifds.GPSIFD && t.ID == gpsifd.GPSLongitudeRef)) ==> same(ir.Exif.GPS.longitudeRef, old(ir.Exif.GPS.longitudeRef))
-//@   ensures [C03] ir.customTagParser == nil && !((t.Ifd == ifds.GPSIFD && t.ID == gpsifd.GPSAltitude)) ==> same(ir.Exif.GPS.altitude, old(ir.Exif.GPS.altitude))
-//@   ensures [C03] ir.customTagParser == nil && !((t.Ifd == ifds.GPSIFD && t.ID == gpsifd.GPSLatitude)) ==> same(ir.Exif.GPS.latitude, old(ir.Exif.GPS.latitude))
-//@   ensures [C03] ir.customTagParser == nil && !((t.Ifd == ifds.GPSIFD && t.ID == gpsifd.GPSLongitude)) ==> same(ir.Exif.GPS.longitude, old(ir.Exif.GPS.longitude))
-//@   ensures [C03] ir.customTagParser == nil && !((t.Ifd == ifds.GPSIFD && t.ID == gpsifd.GPSTimeStamp)) ==> same(ir.Exif.GPS.time, old(ir.Exif.GPS.time))
-//@   ensures [C03] ir.customTagParser == nil && !((t.Ifd == ifds.ExifIFD && t.ID == exififd.SubSecTime)) ==> same(ir.Exif.Time.subSecTime, old(ir.Exif.Time.subSecTime))
-//@   ensures [C03] ir.customTagParser == nil && !((t.Ifd == ifds.ExifIFD && t.ID == exififd.SubSecTimeOriginal)) ==> same(ir.Exif.Time.subSecTimeOriginal, old(ir.Exif.Time.subSecTimeOriginal))
-//@   ensures [C03] ir.customTagParser == nil && !((t.Ifd == ifds.ExifIFD && t.ID == exififd.SubSecTimeDigitized)) ==> same(ir.Exif.Time.subSecTimeDigitized, old(ir.Exif.Time.subSecTimeDigitized))
-//@   ensures [C03] ir.customTagParser == nil && !((t.Ifd == ifds.IFD0 && t.ID == ifds.Artist) || (t.Ifd == ifds.ExifIFD && t.ID == exififd.CameraOwnerName)) ==> same(ir.Exif.Artist, old(ir.Exif.Artist))
-//@   ensures [C03] ir.customTagParser == nil && !((t.Ifd == ifds.IFD0 && t.ID == ifds.Copyright)) ==> same(ir.Exif.Copyright, old(ir.Exif.Copyright))
-//@   ensures [C03] ir.customTagParser == nil && !((t.Ifd == ifds.IFD0 && t.ID == ifds.Software)) ==> same(ir.Exif.Software, old(ir.Exif.Software))
-//@   ensures [C03] ir.customTagParser == nil && !((t.Ifd == ifds.IFD0 && t.ID == ifds.ImageDescription)) ==> same(ir.Exif.ImageDescription, old(ir.Exif.ImageDescription))
-//@   ensures [C03] ir.customTagParser == nil && !((t.Ifd == ifds.IFD0 && t.ID == ifds.Make)) ==> same(ir.Exif.Make, old(ir.Exif.Make))
-//@   ensures [C03] ir.customTagParser == nil && !((t.Ifd == ifds.IFD0 && t.ID == ifds.Model)) ==> same(ir.Exif.Model, old(ir.Exif.Model))
-//@   ensures [C03] ir.customTagParser == nil && !((t.Ifd == ifds.ExifIFD && t.ID == exififd.LensMake)) ==> same(ir.Exif.LensMake, old(ir.Exif.LensMake))
-//@   ensures [C03] ir.customTagParser == nil && !((t.Ifd == ifds.ExifIFD && t.ID == exififd.LensModel)) ==> same(ir.Exif.LensModel, old(ir.Exif.LensModel))
-//@   ensures [C03] ir.customTagParser == nil && !((t.Ifd == ifds.ExifIFD && t.ID == exififd.LensSerialNumber)) ==> same(ir.Exif.LensSerial, old(ir.Exif.LensSerial))
-//@   ensures [C03] ir.customTagParser == nil && !((t.Ifd == ifds.IFD0 && t.ID == ifds.CameraSerialNumber) || (t.Ifd == ifds.ExifIFD && t.ID == exififd.BodySerialNumber)) ==> same(ir.Exif.CameraSerial, old(ir.Exif.CameraSerial))
+//@   ensures [C03 ONLY] ir.customTagParser == nil && (t.Ifd == ifds.IFD0 && t.ID == ifds.Orientation) ==> ir.Exif.Orientation == meta.Orientation(u16val(t))
+//@   ensures [C03 ONLY] ir.customTagParser == nil && (t.Ifd == ifds.IFD0 && t.ID == ifds.StripOffsets) ==> ir.Exif.StripOffsets == u32val(t)
+//@   ensures [C03 ONLY] ir.customTagParser == nil && (t.Ifd == ifds.IFD0 && t.ID == ifds.StripByteCounts) ==> ir.Exif.StripByteCounts == u32val(t)
+//@   ensures [C03 ONLY] ir.customTagParser == nil && (t.Ifd == ifds.ExifIFD && t.ID == exififd.ExposureProgram) ==> ir.Exif.ExposureProgram == meta.ExposureProgram(u16val(t))
+//@   ensures [C03 ONLY] ir.customTagParser == nil && (t.Ifd == ifds.ExifIFD && t.ID == exififd.ExposureMode) ==> ir.Exif.ExposureMode == meta.ExposureMode(u16val(t))
+//@   ensures [C03 ONLY] ir.customTagParser == nil && (t.Ifd == ifds.ExifIFD && t.ID == exififd.MeteringMode) ==> ir.Exif.MeteringMode == meta.MeteringMode(u16val(t))
+//@   ensures [C03 ONLY] ir.customTagParser == nil && (t.Ifd == ifds.ExifIFD && t.ID == ifds.Flash) ==> ir.Exif.Flash == meta.Flash(u16val(t))
+//@   ensures [C03 ONLY] ir.customTagParser == nil && (t.Ifd == ifds.ExifIFD && t.ID == exififd.ISOSpeedRatings) ==> ir.Exif.ISOSpeed == u32val(t)
+//@   ensures [C03 ONLY] ir.customTagParser == nil && (t.Ifd == ifds.IFD0 && t.ID == ifds.ImageWidth) ==> ir.Exif.ImageWidth == uint16(u32val(t))
+//@   ensures [C03 ONLY] ir.customTagParser == nil && (t.Ifd == ifds.IFD0 && t.ID == ifds.ImageLength) ==> ir.Exif.ImageHeight == uint16(u32val(t))
+//@   ensures [C03 ONLY] ir.customTagParser == nil && (t.Ifd == ifds.ExifIFD && t.ID == exififd.PixelXDimension) ==> ir.Exif.ImageWidth == ite(old(ir.Exif.ImageWidth) == 0, uint16(u32val(t)), old(ir.Exif.ImageWidth))
+//@   ensures [C03 ONLY] ir.customTagParser == nil && (t.Ifd == ifds.ExifIFD && t.ID == exififd.PixelYDimension) ==> ir.Exif.ImageHeight == ite(old(ir.Exif.ImageHeight) == 0, uint16(u32val(t)), old(ir.Exif.ImageHeight))
+//@   ensures [C03 ONLY] ir.customTagParser == nil && !((t.Ifd == ifds.IFD0 && t.ID == ifds.Orientation)) ==> same(ir.Exif.Orientation, old(ir.Exif.Orientation))
+//@   ensures [C03 ONLY] ir.customTagParser == nil && !((t.Ifd == ifds.IFD0 && t.ID == ifds.StripOffsets)) ==> same(ir.Exif.StripOffsets, old(ir.Exif.StripOffsets))
+//@   ensures [C03 ONLY] ir.customTagParser == nil && !((t.Ifd == ifds.IFD0 && t.ID == ifds.StripByteCounts)) ==> same(ir.Exif.StripByteCounts, old(ir.Exif.StripByteCounts))
+//@   ensures [C03 ONLY] ir.customTagParser == nil && !((t.Ifd == ifds.ExifIFD && t.ID == exififd.ExposureProgram)) ==> same(ir.Exif.ExposureProgram, old(ir.Exif.ExposureProgram))
+//@   ensures [C03 ONLY] ir.customTagParser == nil && !((t.Ifd == ifds.ExifIFD && t.ID == exififd.ExposureMode)) ==> same(ir.Exif.ExposureMode, old(ir.Exif.ExposureMode))
+//@   ensures [C03 ONLY] ir.customTagParser == nil && !((t.Ifd == ifds.ExifIFD && t.ID == exififd.MeteringMode)) ==> same(ir.Exif.MeteringMode, old(ir.Exif.MeteringMode))
+//@   ensures [C03 ONLY] ir.customTagParser == nil && !((t.Ifd == ifds.ExifIFD && t.ID == ifds.Flash)) ==> same(ir.Exif.Flash, old(ir.Exif.Flash))
+//@   ensures [C03 ONLY] ir.customTagParser == nil && !((t.Ifd == ifds.ExifIFD && t.ID == exififd.ISOSpeedRatings)) ==> same(ir.Exif.ISOSpeed, old(ir.Exif.ISOSpeed))
+//@   ensures [C03 ONLY] ir.customTagParser == nil && !((t.Ifd == ifds.IFD0 && t.ID == ifds.ImageWidth) || (t.Ifd == ifds.ExifIFD && t.ID == exififd.PixelXDimension)) ==> same(ir.Exif.ImageWidth, old(ir.Exif.ImageWidth))
+//@   ensures [C03 ONLY] ir.customTagParser == nil && !((t.Ifd == ifds.IFD0 && t.ID == ifds.ImageLength) || (t.Ifd == ifds.ExifIFD && t.ID == exififd.PixelYDimension)) ==> same(ir.Exif.ImageHeight, old(ir.Exif.ImageHeight))
+//@   ensures [C03 ONLY] ir.customTagParser == nil && !((t.Ifd == ifds.ExifIFD && t.ID == exififd.FNumber) || (t.Ifd == ifds.ExifIFD && t.ID == exififd.ApertureValue)) ==> same(ir.Exif.FNumber, old(ir.Exif.FNumber))
+//@   ensures [C03 ONLY] ir.customTagParser == nil && !((t.Ifd == ifds.ExifIFD && t.ID == exififd.ExposureTime)) ==> same(ir.Exif.ExposureTime, old(ir.Exif.ExposureTime))
+//@   ensures [C03 ONLY] ir.customTagParser == nil && !((t.Ifd == ifds.ExifIFD && t.ID == exififd.ExposureBiasValue)) ==> same(ir.Exif.ExposureBias, old(ir.Exif.ExposureBias))
+//@   ensures [C03 ONLY] ir.customTagParser == nil && !((t.Ifd == ifds.ExifIFD && t.ID == ifds.FocalLength)) ==> same(ir.Exif.FocalLength, old(ir.Exif.FocalLength))
+//@   ensures [C03 ONLY] ir.customTagParser == nil && !((t.Ifd == ifds.ExifIFD && t.ID == exififd.FocalLengthIn35mmFilm)) ==> same(ir.Exif.FocalLengthIn35mmFormat, old(ir.Exif.FocalLengthIn35mmFormat))
+//@   ensures [C03 ONLY] ir.customTagParser == nil && !((t.Ifd == ifds.IFD0 && t.ID == ifds.Make)) ==> same(ir.Exif.CameraMake, old(ir.Exif.CameraMake))
+//@   ensures [C03 ONLY] ir.customTagParser == nil && !((t.Ifd == ifds.IFD0 && t.ID == ifds.Model)) ==> same(ir.Exif.CameraModel, old(ir.Exif.CameraModel))
+//@   ensures [C03 ONLY] ir.customTagParser == nil && !((t.Ifd == ifds.IFD0 && t.ID == ifds.DNGVersion)) ==> same(ir.Exif.ImageType, old(ir.Exif.ImageType))
+//@   ensures [C03 ONLY] ir.customTagParser == nil && !((t.Ifd == ifds.GPSIFD && t.ID == gpsifd.GPSAltitudeRef)) ==> same(ir.Exif.GPS.altitudeRef, old(ir.Exif.GPS.altitudeRef))
+//@   ensures [C03 ONLY] ir.customTagParser == nil && !((t.Ifd == ifds.GPSIFD && t.ID == gpsifd.GPSLatitudeRef)) ==> same(ir.Exif.GPS.latitudeRef, old(ir.Exif.GPS.latitudeRef))
+//@   ensures [C03 ONLY] ir.customTagParser == nil && !((t.Ifd == ifds.GPSIFD && t.ID == gpsifd.GPSLongitudeRef)) ==> same(ir.Exif.GPS.longitudeRef, old(ir.Exif.GPS.longitudeRef))
+//@   ensures [C03 ONLY] ir.customTagParser == nil && !((t.Ifd == ifds.GPSIFD && t.ID == gpsifd.GPSAltitude)) ==> same(ir.Exif.GPS.altitude, old(ir.Exif.GPS.altitude))
+//@   ensures [C03 ONLY] ir.customTagParser == nil && !((t.Ifd == ifds.GPSIFD && t.ID == gpsifd.GPSLatitude)) ==> same(ir.Exif.GPS.latitude, old(ir.Exif.GPS.latitude))
+//@   ensures [C03 ONLY] ir.customTagParser == nil && !((t.Ifd == ifds.GPSIFD && t.ID == gpsifd.GPSLongitude)) ==> same(ir.Exif.GPS.longitude, old(ir.Exif.GPS.longitude))
+//@   ensures [C03 ONLY] ir.customTagParser == nil && !((t.Ifd == ifds.GPSIFD && t.ID == gpsifd.GPSTimeStamp)) ==> same(ir.Exif.GPS.time, old(ir.Exif.GPS.time))
+//@   ensures [C03 ONLY] ir.customTagParser == nil && !((t.Ifd == ifds.ExifIFD && t.ID == exififd.SubSecTime)) ==> same(ir.Exif.Time.subSecTime, old(ir.Exif.Time.subSecTime))
+//@   ensures [C03 ONLY] ir.customTagParser == nil && !((t.Ifd == ifds.ExifIFD && t.ID == exififd.SubSecTimeOriginal)) ==> same(ir.Exif.Time.subSecTimeOriginal, old(ir.Exif.Time.subSecTimeOriginal))
+//@   ensures [C03 ONLY] ir.customTagParser == nil && !((t.Ifd == ifds.ExifIFD && t.ID == exififd.SubSecTimeDigitized)) ==> same(ir.Exif.Time.subSecTimeDigitized, old(ir.Exif.Time.subSecTimeDigitized))
+//@   ensures [C03 ONLY] ir.customTagParser == nil && !((t.Ifd == ifds.IFD0 && t.ID == ifds.Artist) || (t.Ifd == ifds.ExifIFD && t.ID == exififd.CameraOwnerName)) ==> same(ir.Exif.Artist, old(ir.Exif.Artist))
+//@   ensures [C03 ONLY] ir.customTagParser == nil && !((t.Ifd == ifds.IFD0 && t.ID == ifds.Copyright)) ==> same(ir.Exif.Copyright, old(ir.Exif.Copyright))
+//@   ensures [C03 ONLY] ir.customTagParser == nil && !((t.Ifd == ifds.IFD0 && t.ID == ifds.Software)) ==> same(ir.Exif.Software, old(ir.Exif.Software))
+//@   ensures [C03 ONLY] ir.customTagParser == nil && !((t.Ifd == ifds.IFD0 && t.ID == ifds.ImageDescription)) ==> same(ir.Exif.ImageDescription, old(ir.Exif.ImageDescription))
+//@   ensures [C03 ONLY] ir.customTagParser == nil && !((t.Ifd == ifds.IFD0 && t.ID == ifds.Make)) ==> same(ir.Exif.Make, old(ir.Exif.Make))
+//@   ensures [C03 ONLY] ir.customTagParser == nil && !((t.Ifd == ifds.IFD0 && t.ID == ifds.Model)) ==> same(ir.Exif.Model, old(ir.Exif.Model))
+//@   ensures [C03 ONLY] ir.customTagParser == nil && !((t.Ifd == ifds.ExifIFD && t.ID == exififd.LensMake)) ==> same(ir.Exif.LensMake, old(ir.Exif.LensMake))
+//@   ensures [C03 ONLY] ir.customTagParser == nil && !((t.Ifd == ifds.ExifIFD && t.ID == exififd.LensModel)) ==> same(ir.Exif.LensModel, old(ir.Exif.LensModel))
+//@   ensures [C03 ONLY] ir.customTagParser == nil && !((t.Ifd == ifds.ExifIFD && t.ID == exififd.LensSerialNumber)) ==> same(ir.Exif.LensSerial, old(ir.Exif.LensSerial))
+//@   ensures [C03 ONLY] ir.customTagParser == nil && !((t.Ifd == ifds.IFD0 && t.ID == ifds.CameraSerialNumber) || (t.Ifd == ifds.ExifIFD && t.ID == exififd.BodySerialNumber)) ==> same(ir.Exif.CameraSerial, old(ir.Exif.CameraSerial))
 
 //@ func (*ifdReader).readNextIfdTag
 //@   props C01 C02 C06 C03
